@@ -3,6 +3,8 @@
 package etcdraft
 
 import (
+	"os"
+	"github.com/coreos/etcd/snap"
 	"sync"
 	"time"
 
@@ -78,7 +80,7 @@ func ZZH_C20_publish() {
 	first := zz.U64("firstIndex")
 	zz.Assume(first >= 1)
 	zz.Assume(first < 1<<32)
-	cnt := 1 + zz.Choice("entries", 3)
+	cnt := 1 + zz.Choice("entries", zz.Tier(3, 5))
 	var ents []raftpb.Entry
 	var heights []uint64
 	for i := 0; i < cnt; i++ {
@@ -216,4 +218,79 @@ func ZZH_C20_snapshot() {
 	zz.Assert("C20.snapshot.decodes", cm.Unmarshal(data) == nil)
 	zz.Assert("C20.snapshot.height-of-applied-index", cm.Height == n.lastExec)
 	zz.Cover("C20.snapshot.executor-lagging", lag > 0)
+}
+
+// zzSyncer answers block-range requests from a harness-chosen script: complete and in order, or
+// with one fault in the first reply (a block missing, duplicated, or two neighbours swapped).
+type zzSyncer struct {
+	fault    int // 0 none, 1 drop, 2 duplicate, 3 swap; applied to the first reply only
+	pos      int // position of the fault inside the reply
+	calls    int
+	requests [][2]uint64
+}
+
+func (s *zzSyncer) SyncCFTBlocks(begin, end uint64, ch chan *pb.Block) error {
+	s.calls++
+	s.requests = append(s.requests, [2]uint64{begin, end})
+	var hs []uint64
+	for h := begin; h <= end; h++ {
+		hs = append(hs, h)
+	}
+	if s.calls == 1 && s.pos < len(hs) {
+		switch s.fault {
+		case 1:
+			hs = append(append([]uint64{}, hs[:s.pos]...), hs[s.pos+1:]...)
+		case 2:
+			hs = append(append(append([]uint64{}, hs[:s.pos+1]...), hs[s.pos]), hs[s.pos+1:]...)
+		case 3:
+			if s.pos+1 < len(hs) {
+				hs[s.pos], hs[s.pos+1] = hs[s.pos+1], hs[s.pos]
+			}
+		}
+	}
+	for _, h := range hs {
+		ch <- &pb.Block{BlockHeader: &pb.BlockHeader{Number: h}, Transactions: &pb.Transactions{}}
+	}
+	ch <- nil
+	return nil
+}
+
+func (s *zzSyncer) SyncBFTBlocks(begin, end uint64, metaHash *types.Hash, ch chan *pb.Block) error {
+	return nil
+}
+
+// ZZH_C20_catchup: a lagging replica installs a raft snapshot (target height = lastExec + 1..4,
+// snapshot index 20) and fetches the missing blocks from a peer whose first reply may be faulty
+// (one block missing, duplicated or swapped with its neighbour - message loss / duplication /
+// reordering). The executor receives exactly the heights lastExec+1 .. target, in order, each
+// once; afterwards lastExec = target and the applied index is the snapshot's.
+func ZZH_C20_catchup() {
+	lastExec := uint64(2)
+	n, _ := zzNode(lastExec, zz.NewStore())
+	gap := uint64(1 + zz.Choice("gap", 4))
+	target := lastExec + gap
+	sy := &zzSyncer{fault: zz.Choice("fault", 4), pos: zz.Choice("faultPosition", 4)}
+	n.syncer = sy
+	height := lastExec
+	n.getChainMetaFunc = func() *pb.ChainMeta {
+		return &pb.ChainMeta{Height: height, BlockHash: types.NewHashByStr("0x1111111111111111111111111111111111111111111111111111111111111111")}
+	}
+	dir, _ := os.MkdirTemp("", "zzsnap")
+	defer os.RemoveAll(dir)
+	sn := snap.New(dir)
+	cm := pb.ChainMeta{Height: target}
+	data, _ := cm.Marshal()
+	if err := sn.SaveSnap(raftpb.Snapshot{Data: data, Metadata: raftpb.SnapshotMetadata{Index: 20, Term: 1}}); err != nil {
+		panic(err)
+	}
+	n.raftStorage = &RaftStorage{snap: sn}
+	n.commitC = make(chan *pb.CommitEvent, 64)
+	n.recoverFromSnapshot()
+	got := zzDrain(n)
+	zz.Assert("C20.catchup.count", uint64(len(got)) == gap)
+	for i := range got {
+		zz.Assert("C20.catchup.in-order-by-one", got[i] == lastExec+uint64(i)+1)
+	}
+	zz.Assert("C20.catchup.reaches-target", n.lastExec == target && n.appliedIndex == 20 && n.snapshotIndex == 20)
+	zz.Cover("C20.catchup.retried", sy.calls >= 2)
 }
